@@ -846,4 +846,166 @@ theorem decodeRead_sim (p : Params) (i : Nat) (w : World) (v : Iov) (g : List UI
             obtain ⟨a1, a2⟩ := k5 err es he
             exact ⟨a1, a2.pushed0 m2⟩
 
+/-- The decoder's whole run (all input methods) on the structural iovec agrees with the pipe-level run
+(`Dec.runPieces`): no panic, the same verdict; the iovec represents the pipe built by the emits. -/
+theorem decCallsA_sim (p : Params) (i : Nat) (calls : List ACall) :
+    ∀ (w : World) (v : Iov) (s : DecState) (dr : List UInt8) (evs : List Ev) (acc : List Emit),
+    w.iov i = some v → SimV w v dr [] (runEv Woodpile.Pipe.empty evs) → prodOps evs = acc.map (·.op) →
+    Woodpile.Hcobs.DecProof.AppendOnly acc →
+    ∃ w' v' dr' res evs', decCallsA p i w s dr calls = some (w', dr', res) ∧ w'.iov i = some v' ∧
+      SimV w' v' dr' [] (runEv Woodpile.Pipe.empty evs') ∧
+      (prodOps evs').all Woodpile.Pipe.Op.isAppend = true ∧
+      (∀ e, Dec.runPieces p (apieces calls) s acc = .error e → res = .error e) ∧
+      (∀ es, Dec.runPieces p (apieces calls) s acc = .ok es → res = .ok () ∧ prodOps evs' = es.map (·.op)) := by
+  induction calls with
+  | nil =>
+    intro w v s dr evs acc hv h hev hacc
+    refine ⟨w, v, dr, Dec.finish s, evs, rfl, hv, h, by rw [hev]; exact hacc, ?_, ?_⟩
+    · intro e he
+      simp only [apieces, Dec.runPieces] at he
+      cases hf : Dec.finish s with
+      | error e' => rw [hf] at he; simp only [Except.error.injEq] at he; rw [he]
+      | ok u => rw [hf] at he; cases he
+    · intro es he
+      simp only [apieces, Dec.runPieces] at he
+      cases hf : Dec.finish s with
+      | error e' => rw [hf] at he; cases he
+      | ok u => rw [hf] at he; simp only [Except.ok.injEq] at he; subst he; exact ⟨rfl, hev⟩
+  | cons c t ih =>
+    intro w v s dr evs acc hv h hev hacc
+    -- a piece `(m, d)` whose feed was simulated: shared by `feed` and `read`
+    have piece : ∀ (m : Method) (d : List UInt8) (w1 : World) (v1 : Iov) (res1 : Except DecErr DecState),
+        w1.iov i = some v1 →
+        (∀ s' es, Dec.feedAll p m s d = .ok (s', es) → res1 = .ok s' ∧
+          SimV w1 v1 dr [] ((runEv Woodpile.Pipe.empty evs).run (es.map (·.op)))) →
+        (∀ err es, Dec.feedAll p m s d = .error (err, es) → res1 = .error err ∧
+          SimV w1 v1 dr [] ((runEv Woodpile.Pipe.empty evs).run (es.map (·.op)))) →
+        ∃ w' v' dr' res evs',
+          (match res1 with
+            | .ok s' => decCallsA p i w1 s' dr t
+            | .error e => some (w1, dr, .error e)) = some (w', dr', res) ∧ w'.iov i = some v' ∧
+          SimV w' v' dr' [] (runEv Woodpile.Pipe.empty evs') ∧
+          (prodOps evs').all Woodpile.Pipe.Op.isAppend = true ∧
+          (∀ e, Dec.runPieces p ((m, d) :: apieces t) s acc = .error e → res = .error e) ∧
+          (∀ es, Dec.runPieces p ((m, d) :: apieces t) s acc = .ok es → res = .ok () ∧
+            prodOps evs' = es.map (·.op)) := by
+      intro m d w1 v1 res1 h2 h3 h4
+      have hao := Woodpile.Hcobs.DecProof.feed_appendOnly p m (d.length + 1) s d
+      cases hf : Dec.feedAll p m s d with
+      | error ee =>
+        obtain ⟨err, es⟩ := ee
+        obtain ⟨a1, a2⟩ := h4 err es hf
+        subst a1
+        unfold Dec.feedAll at hf
+        rw [hf] at hao
+        refine ⟨w1, v1, dr, .error err, evs ++ (es.map (·.op)).map Ev.prod, rfl, h2, ?_, ?_, ?_, ?_⟩
+        · rw [Woodpile.Pipe.runEv_append, runEv_prods]; exact a2
+        · rw [Woodpile.Pipe.prodOps_append, prodOps_prods, hev, List.all_append, Bool.and_eq_true]
+          exact ⟨hacc, hao⟩
+        · intro e he
+          simp only [Dec.runPieces, Dec.feedAll, hf, Except.error.injEq] at he
+          rw [he]
+        · intro es' he
+          simp only [Dec.runPieces, Dec.feedAll, hf] at he
+          cases he
+      | ok se =>
+        obtain ⟨s1, es⟩ := se
+        obtain ⟨a1, a2⟩ := h3 s1 es hf
+        subst a1
+        have hf' := hf
+        unfold Dec.feedAll at hf'
+        rw [hf'] at hao
+        obtain ⟨w2, v2, dr2, res2, evs2, k1, k2, k3, k4, k5, k6⟩ := ih w1 v1 s1 dr
+          (evs ++ (es.map (·.op)).map Ev.prod) (acc ++ es) h2
+          (by rw [Woodpile.Pipe.runEv_append, runEv_prods]; exact a2)
+          (by rw [Woodpile.Pipe.prodOps_append, prodOps_prods, hev, List.map_append])
+          (Woodpile.Hcobs.DecProof.appendOnly_append hacc hao)
+        refine ⟨w2, v2, dr2, res2, evs2, k1, k2, k3, k4, ?_, ?_⟩
+        · intro e he
+          simp only [Dec.runPieces, hf] at he
+          exact k5 e he
+        · intro es' he
+          simp only [Dec.runPieces, hf] at he
+          exact k6 es' he
+    cases c with
+    | call c =>
+      cases c with
+      | feed m d =>
+        obtain ⟨w1, v1, res1, h1, h2, h3, h4⟩ := decFeedCall_sim p i m d w v dr s _ hv h
+        obtain ⟨w', v', dr', res, evs', g1, g2⟩ := piece m d w1 v1 res1 h2 h3 h4
+        refine ⟨w', v', dr', res, evs', ?_, by simpa [apieces, pieces] using g2⟩
+        simp only [decCallsA, h1]
+        cases res1 <;> exact g1
+      | consume k =>
+        obtain ⟨v', h1, h2, _⟩ := World.consume_spec w i v k hv h.inv
+        have hm : sumLens (v.slices.take (min k v.stableN)) ≤ sumLens (v.slices.take v.stableN) :=
+          sumLens_take_mono _ (Nat.min_le_right _ _)
+        obtain ⟨g1, _, _⟩ := h.consumed h2 hm
+        rw [flat_take_prefix w v.arena v.slices _ h.inv.slices_ok] at g1
+        obtain ⟨w2, v2, dr2, res2, evs2, k1, k2, k3, k4, k5, k6⟩ := ih (w.setIov i (some v')) v' s
+          (dr ++ w.flat (v.slices.take (min k v.stableN)))
+          (evs ++ [.drain (sumLens (v.slices.take (min k v.stableN)))]) acc (by simp)
+          (by rw [Woodpile.Pipe.runEv_append]; exact g1.setIov i _)
+          (by rw [Woodpile.Pipe.prodOps_append, hev]; simp [prodOps]) hacc
+        exact ⟨w2, v2, dr2, res2, evs2, by simp only [decCallsA, hv, h1]; exact k1, k2, k3, k4,
+          by simpa [apieces, pieces] using k5, by simpa [apieces, pieces] using k6⟩
+      | advance k =>
+        obtain ⟨v', h1, h2⟩ := World.advance_spec w i v k hv h.inv
+        obtain ⟨g1, _, _⟩ := h.consumed h2 (Nat.min_le_right _ _)
+        obtain ⟨w2, v2, dr2, res2, evs2, k1, k2, k3, k4, k5, k6⟩ := ih (w.setIov i (some v')) v' s
+          (dr ++ (w.flat v.slices).take (min k (sumLens (v.slices.take v.stableN))))
+          (evs ++ [.drain (min k (sumLens (v.slices.take v.stableN)))]) acc (by simp)
+          (by rw [Woodpile.Pipe.runEv_append]; exact g1.setIov i _)
+          (by rw [Woodpile.Pipe.prodOps_append, hev]; simp [prodOps]) hacc
+        exact ⟨w2, v2, dr2, res2, evs2, by simp only [decCallsA, hv, h1]; exact k1, k2, k3, k4,
+          by simpa [apieces, pieces] using k5, by simpa [apieces, pieces] using k6⟩
+    | read count attempts src script =>
+      obtain ⟨w1, v1, res1, o, h1, h2, h3, h4⟩ := decodeRead_sim p i w v dr s _ count attempts src script hv h
+      cases hres : (ReadN.readNCore ⟨src, script⟩ count attempts).res with
+      | err k =>
+        obtain ⟨a1, a2⟩ := h3 k hres
+        subst a1
+        obtain ⟨w2, v2, dr2, res2, evs2, k1, k2, k3, k4, k5, k6⟩ := ih w1 v1 s dr evs acc h2 a2 hev hacc
+        exact ⟨w2, v2, dr2, res2, evs2, by simp only [decCallsA, h1]; exact k1, k2, k3, k4,
+          by simpa [apieces, readPiece, hres] using k5, by simpa [apieces, readPiece, hres] using k6⟩
+      | ok got =>
+        obtain ⟨dres, a1, a2, a3⟩ := h4 got hres
+        subst a1
+        obtain ⟨w', v', dr', res, evs', g1, g2⟩ := piece .borrow got w1 v1 dres h2 a2 a3
+        refine ⟨w', v', dr', res, evs', ?_, by simpa [apieces, readPiece, hres] using g2⟩
+        simp only [decCallsA, h1]
+        cases dres <;> exact g1
+
+/-- The decoder's whole run, all input methods (as `decRun_sim`). -/
+theorem decRunA_sim (p : Params) (pol : Policy) (tun : Tuning) (calls : List ACall) :
+    ∃ w' v' dr res, decRunA p pol tun calls = some (w', dr, res) ∧ w'.iov 0 = some v' ∧ IovInv w' v' ∧
+      v'.hasPending = false ∧ w'.visible v' = w'.flat v'.slices ∧
+      (∀ e, res = .error e ↔ Dec.output p (apieces calls) = .error e) ∧
+      (res = .ok () ↔ Dec.output p (apieces calls) = .ok (dr ++ w'.flat v'.slices)) ∧
+      (res = .ok () ↔ ∃ d, Dec.output p (apieces calls) = .ok d) := by
+  obtain ⟨w', v', dr, res, evs, h1, h2, h3, h4, h5, h6⟩ := decCallsA_sim p 0 calls (World.fresh pol tun) Iov.empty
+    .initial [] [] [] rfl (simV_fresh pol tun) rfl rfl
+  have hlag := Woodpile.Pipe.drain_complete Woodpile.Pipe.empty evs
+  rw [Woodpile.Pipe.total_empty] at hlag
+  have hpend : (runEv Woodpile.Pipe.empty evs).pending = false := by
+    rw [hlag.2]; exact Woodpile.Pipe.pending_run_appendOnly _ _ h4 rfl
+  obtain ⟨g1, g2, g3, _⟩ := h3.no_pending hpend
+  have hbytes : dr ++ w'.flat v'.slices = (Woodpile.Pipe.empty.run (prodOps evs)).bytes := by
+    rw [g3, h3.ghost]; exact hlag.1
+  refine ⟨w', v', dr, res, h1, h2, h3.inv, g1, g2, ?_⟩
+  unfold Dec.output
+  cases hr : Dec.runPieces p (apieces calls) .initial [] with
+  | error e0 =>
+    have := h5 e0 hr
+    subst this
+    refine ⟨fun e => by simp, by simp, by simp⟩
+  | ok es =>
+    obtain ⟨a1, a2⟩ := h6 es hr
+    subst a1
+    rw [a2] at hbytes
+    refine ⟨fun e => by simp, by simp [hbytes], by simp⟩
+
+theorem decRunA_call (p : Params) (pol : Policy) (tun : Tuning) (calls : List Call) :
+    decRunA p pol tun (calls.map .call) = decRun p pol tun calls := decCallsA_call p 0 calls _ _ _
+
 end Woodpile.EncWorld
